@@ -1,6 +1,7 @@
 /-
 Executable model of the token module: modules/token/keeper/{keeper,token,fees,erc20,evm_hook,
-msg_server,params}.go, types/{types,validation}.go, types/v1/{msgs,token,params}.go.
+msg_server,legacy_msg_server,params}.go, types/{types,validation}.go, types/v1/{msgs,token,params}.go,
+types/v1beta1/{msgs,token}.go.
 
 The model follows the code as it is.  Notably
 * `EditToken` compares the new max supply with the circulating amount in min units
@@ -10,12 +11,21 @@ The model follows the code as it is.  Notably
   `⌊input·num/den⌋`, the input taken is `⌈output·den/num⌉`, `(0, 0)` for a non-positive
   input or ratio;
 * the issue fee uses `(ln len / ln 3)^4` printed with two decimals: a table over the symbol
-  lengths 3..64 (compared with the real function by the harness on every run).
+  lengths 3..64 (compared with the real function by the harness on every run);
+* every v1 message is `ValidateBasic` followed by the msg-server method (`handle…`); the legacy
+  (v1beta1) Msg service runs the v1beta1 `ValidateBasic` and then calls the **v1 msg-server method
+  directly** — the v1 `ValidateBasic` is never run on the translated message.  `MintToken` /
+  `BurnToken` of the legacy service look the token up by SYMBOL and convert the `uint64` amount of
+  main units with `Token.ToMinCoin` (`amount · 10^scale`, through `LegacyDec.Mul` + `TruncateInt`);
+* `UpgradeERC20` (authority only) calls `upgradeTo(implementation)` on the beacon contract: the
+  beacon reverts unless the new implementation is an address with code.
 
 Addresses are the symbolic names of the line protocol (`A0..`, `FC` fee collector, `TM` token
 module account, `GOV` authority); ERC20 contracts are `K<n>`, the n-th contract created by the
 module account (the EVM assigns `CreateAddress(TM, n-1)`), `0` = none.  The EVM side is a
-ledger keyed by (contract, holder) with a fault switch that makes the contract misbehave.
+ledger keyed by (contract, holder) with a fault switch that makes the contract misbehave, and
+the beacon's current implementation (`I<n>`: an implementation contract, `B`: the beacon itself,
+`K<n>`, or any address without code `E<n>` / `A<n>` / `Z` = the zero address).
 A rejected message leaves the state unchanged (the transaction cache is discarded).
 Core Lean only.
 -/
@@ -73,6 +83,7 @@ structure State where
   nonce     : Nat := 0                           -- account sequence of TM = contracts created
   evm       : AMap (Nat × String) Nat := []      -- (contract, holder) ↦ ERC20 balance
   fault     : String := "none"                   -- how the contract misbehaves (environment)
+  impl      : String := "I0"                     -- the beacon's implementation (EVM state)
   env       : Env := {}
   deriving Repr, Inhabited
 
@@ -106,6 +117,13 @@ inductive Op where
   | evmFault (mode : String)
   | updateParams (authority : String) (p : Params)
   | evmTx (target : Emitter) (logs : List SwapLog)
+  -- the legacy (v1beta1) Msg service
+  | legacyIssue (owner symbol name minUnit : String) (scale init max : Nat) (mintable : Bool)
+  | legacyEdit (owner symbol name : String) (max : Nat) (mintable : String)
+  | legacyMint (owner to symbol : String) (amount : Nat)
+  | legacyBurn (sender symbol : String) (amount : Nat)
+  | legacyTransferOwner (src dst symbol : String)
+  | upgradeErc20 (authority impl : String)
   deriving Repr, Inhabited
 
 inductive Err where
@@ -340,9 +358,9 @@ def issuedToken (owner symbol name minUnit : String) (scale init max : Nat) (min
   { symbol := symbol, name := name, scale := scale, minUnit := minUnit, initialSupply := init,
     maxSupply := defaultMax init max mintable, mintable := mintable, owner := owner }
 
-def stepIssue (s : State) (owner symbol name minUnit : String) (scale init max : Nat)
+/-- `msgServer.IssueToken` (the method both Msg services end in) -/
+def handleIssue (s : State) (owner symbol name minUnit : String) (scale init max : Nat)
     (mintable : Bool) : R :=
-  if !(issueValid owner symbol name minUnit scale init max mintable) then .error (.reject "invalid message") else
   if blocked s owner then .error (.reject "owner is a blocked module account") else
   match deductFee s owner (issueFee s symbol.length) with
   | .error e => .error e
@@ -351,14 +369,19 @@ def stepIssue (s : State) (owner symbol name minUnit : String) (scale init max :
     if AMap.contains s1.minUnits minUnit then .error (.reject "min unit already exists") else
     .ok (addIssued s1 (issuedToken owner symbol name minUnit scale init max mintable))
 
+def stepIssue (s : State) (owner symbol name minUnit : String) (scale init max : Nat)
+    (mintable : Bool) : R :=
+  if !(issueValid owner symbol name minUnit scale init max mintable) then .error (.reject "invalid message") else
+  handleIssue s owner symbol name minUnit scale init max mintable
+
 /-- the token after `EditToken`'s field updates -/
 def edited (t : Token) (name : String) (max : Nat) (mintable : String) : Token :=
   { t with maxSupply := if 0 < max then max else t.maxSupply,
            name := if name ≠ doNotModify then name else t.name,
            mintable := if mintable ≠ "" then parseBool mintable else t.mintable }
 
-def stepEdit (s : State) (owner symbol name : String) (max : Nat) (mintable : String) : R :=
-  if !(isAddr owner && validName name && validSymbol symbol) then .error (.reject "invalid message") else
+/-- `msgServer.EditToken` -/
+def handleEdit (s : State) (owner symbol name : String) (max : Nat) (mintable : String) : R :=
   match tokenBySymbol s symbol with
   | none => .error (.reject "token does not exist")
   | some t =>
@@ -366,6 +389,10 @@ def stepEdit (s : State) (owner symbol name : String) (max : Nat) (mintable : St
     -- the new maximum, in min units, must cover what circulates
     if 0 < max ∧ max * pow10 t.scale < supplyOf s t.minUnit then .error (.reject "max supply too low") else
     .ok { s with tokens := AMap.set s.tokens symbol (edited t name max mintable) }
+
+def stepEdit (s : State) (owner symbol name : String) (max : Nat) (mintable : String) : R :=
+  if !(isAddr owner && validName name && validSymbol symbol) then .error (.reject "invalid message") else
+  handleEdit s owner symbol name max mintable
 
 /-- `Keeper.MintToken` after the fee was deducted -/
 def mintChecked (s : State) (owner rcpt denom : String) (amount : Nat) : R :=
@@ -380,9 +407,9 @@ def mintChecked (s : State) (owner rcpt denom : String) (amount : Nat) : R :=
 /-- the recipient of a mint / swap: the sender when none is given -/
 def rcptOf (owner to : String) : String := if to = "" then owner else to
 
-def stepMint (s : State) (owner to denom : String) (amount : Int) : R :=
-  if !(isAddr owner && (to = "" || isAddr to) && decide (0 < amount) && validSymbol denom) then
-    .error (.reject "invalid message") else
+/-- `msgServer.MintToken`: the coin `(denom, amount)` is taken as it comes — positivity and the
+shape of the denom are `ValidateBasic`'s business, which the legacy service does not run -/
+def handleMint (s : State) (owner to denom : String) (amount : Int) : R :=
   if blocked s (rcptOf owner to) then .error (.reject "recipient is a blocked module account") else
   match AMap.get? s.minUnits denom with
   | none => .error (.reject "min unit does not exist")
@@ -391,8 +418,13 @@ def stepMint (s : State) (owner to denom : String) (amount : Int) : R :=
     | .error e => .error e
     | .ok s1 => mintChecked s1 owner (rcptOf owner to) denom amount.toNat
 
-def stepBurn (s : State) (sender denom : String) (amount : Int) : R :=
-  if !(isAddr sender && decide (0 < amount) && validSymbol denom) then .error (.reject "invalid message") else
+def stepMint (s : State) (owner to denom : String) (amount : Int) : R :=
+  if !(isAddr owner && (to = "" || isAddr to) && decide (0 < amount) && validSymbol denom) then
+    .error (.reject "invalid message") else
+  handleMint s owner to denom amount
+
+/-- `msgServer.BurnToken` -/
+def handleBurn (s : State) (sender denom : String) (amount : Int) : R :=
   match tokenByMinUnit s denom with
   | none => .error (.reject "token does not exist")
   | some _ =>
@@ -400,8 +432,12 @@ def stepBurn (s : State) (sender denom : String) (amount : Int) : R :=
     | none => .error (.reject "insufficient funds")
     | some b => .ok { s with bank := b, burned := AMap.set s.burned denom (burnedOf s denom + amount.toNat) }
 
-def stepTransferOwner (s : State) (src dst symbol : String) : R :=
-  if !(isAddr src && isAddr dst && src ≠ dst && validSymbol symbol) then .error (.reject "invalid message") else
+def stepBurn (s : State) (sender denom : String) (amount : Int) : R :=
+  if !(isAddr sender && decide (0 < amount) && validSymbol denom) then .error (.reject "invalid message") else
+  handleBurn s sender denom amount
+
+/-- `msgServer.TransferTokenOwner` -/
+def handleTransferOwner (s : State) (src dst symbol : String) : R :=
   if blocked s dst then .error (.reject "new owner is a blocked module account") else
   match tokenBySymbol s symbol with
   | none => .error (.reject "token does not exist")
@@ -409,6 +445,76 @@ def stepTransferOwner (s : State) (src dst symbol : String) : R :=
     if src ≠ t.owner then .error (.reject "not the owner") else
     .ok { s with tokens := AMap.set s.tokens symbol { t with owner := dst },
                  owners := AMap.set (AMap.erase s.owners (src, symbol)) (dst, symbol) symbol }
+
+def stepTransferOwner (s : State) (src dst symbol : String) : R :=
+  if !(isAddr src && isAddr dst && src ≠ dst && validSymbol symbol) then .error (.reject "invalid message") else
+  handleTransferOwner s src dst symbol
+
+/-! ### The legacy (v1beta1) Msg service (keeper/legacy_msg_server.go)
+
+`ValidateBasic` of the v1beta1 message, then the adapter: `IssueToken` / `EditToken` /
+`TransferTokenOwner` copy the fields into the v1 message and call the v1 msg-server method;
+`MintToken` / `BurnToken` first resolve the token **by symbol** and convert the `uint64` amount of
+main units into a coin of the min unit with `Token.ToMinCoin`. -/
+
+/-- v1beta1 `MsgIssueToken.ValidateBasic`: `v1beta1.NewToken(…).Validate()` — owner, name, symbol,
+min unit, initial supply, `maxSupply ≥ initialSupply` (after the default), scale: the v1 rules -/
+def legacyIssueValid (owner symbol name minUnit : String) (scale init max : Nat) (mintable : Bool) : Bool :=
+  isAddr owner && validName name && validSymbol symbol && validSymbol minUnit &&
+  decide (init ≤ maxInit) && decide (init ≤ defaultMax init max mintable) && decide (scale ≤ 18)
+
+def stepLegacyIssue (s : State) (owner symbol name minUnit : String) (scale init max : Nat)
+    (mintable : Bool) : R :=
+  if !(legacyIssueValid owner symbol name minUnit scale init max mintable) then .error (.reject "invalid message") else
+  handleIssue s owner symbol name minUnit scale init max mintable
+
+def stepLegacyEdit (s : State) (owner symbol name : String) (max : Nat) (mintable : String) : R :=
+  if !(isAddr owner && validName name && validSymbol symbol) then .error (.reject "invalid message") else
+  handleEdit s owner symbol name max mintable
+
+def stepLegacyTransferOwner (s : State) (src dst symbol : String) : R :=
+  if !(isAddr src && isAddr dst && src ≠ dst && validSymbol symbol) then .error (.reject "invalid message") else
+  handleTransferOwner s src dst symbol
+
+/-- `token.ToMinCoin(sdk.NewDecCoin(symbol, NewIntFromUint64(amount)))` for the token `t` found under
+`symbol`: `LegacyDec(amount).Mul(LegacyDec(10^scale)).TruncateInt()` of the min unit; the coin
+constructors panic on a denom `sdk.ValidateDenom` rejects -/
+def legacyMinCoin (t : Token) (symbol : String) (amount : Nat) : Except Err (String × Int) :=
+  if !(validDenom symbol) then .error (.panic "invalid denom") else
+  if t.symbol ≠ symbol then .error (.reject "not the token symbol") else
+  match (Dec.ofInt (amount : Int)).mul (Dec.ofInt ((pow10 t.scale : Nat) : Int)) with
+  | none => .error (.panic "mul")
+  | some a =>
+    match a.truncateInt with
+    | none => .error (.panic "truncate")
+    | some n => if !(validDenom t.minUnit) then .error (.panic "invalid denom") else .ok (t.minUnit, n)
+
+/-- v1beta1 `MsgMintToken.ValidateBasic`: owner, optional recipient, `amount ≠ 0` (a `uint64`),
+the SYMBOL -/
+def legacyMintValid (owner to symbol : String) (amount : Nat) : Bool :=
+  isAddr owner && (to = "" || isAddr to) && decide (0 < amount) && decide (amount ≤ maxU64) && validSymbol symbol
+
+def stepLegacyMint (s : State) (owner to symbol : String) (amount : Nat) : R :=
+  if !(legacyMintValid owner to symbol amount) then .error (.reject "invalid message") else
+  match tokenBySymbol s symbol with
+  | none => .error (.reject "token does not exist")
+  | some t =>
+    match legacyMinCoin t symbol amount with
+    | .error e => .error e
+    | .ok (d, n) => handleMint s owner to d n
+
+/-- v1beta1 `MsgBurnToken.ValidateBasic` -/
+def legacyBurnValid (sender symbol : String) (amount : Nat) : Bool :=
+  isAddr sender && decide (0 < amount) && decide (amount ≤ maxU64) && validSymbol symbol
+
+def stepLegacyBurn (s : State) (sender symbol : String) (amount : Nat) : R :=
+  if !(legacyBurnValid sender symbol amount) then .error (.reject "invalid message") else
+  match tokenBySymbol s symbol with
+  | none => .error (.reject "token does not exist")
+  | some t =>
+    match legacyMinCoin t symbol amount with
+    | .error e => .error e
+    | .ok (d, n) => handleBurn s sender d n
 
 /-- burn `b` of `denom` from the sender, mint `m` of `target` to the recipient (`SwapFeeToken`) -/
 def swapMoves (s : State) (sender rcpt denom target : String) (b m : Int) : R :=
@@ -545,6 +651,33 @@ def knownFault (m : String) : Bool :=
 def stepEvmFault (s : State) (mode : String) : R :=
   if knownFault mode then .ok { s with fault := mode } else .error (.reject "unknown fault")
 
+/-! ### `UpgradeERC20` (keeper/erc20.go) -/
+
+def natSuffix (p : Char) (a : String) : Option Nat :=
+  match a.toList with
+  | c :: rest => if c = p ∧ allDigits rest then (String.ofList rest).toNat? else none
+  | [] => none
+
+/-- a well-formed hex address for the new implementation: the Ethereum universe plus `I<n>`
+(implementation contracts), `K<n>` (contracts of the module account), `B` (the beacon) and `Z`
+(the zero address) -/
+def isImplAddr (a : String) : Bool :=
+  isEth a || a = "B" || a = "Z" || (natSuffix 'I' a).isSome || (natSuffix 'K' a).isSome
+
+/-- does the address carry code?  (`UpgradeableBeacon._setImplementation` reverts otherwise) -/
+def hasCode (s : State) (a : String) : Bool :=
+  a = "B" || (natSuffix 'I' a).isSome ||
+  (match natSuffix 'K' a with | some n => decide (1 ≤ n) && decide (n ≤ s.nonce) | none => false)
+
+def stepUpgradeErc20 (s : State) (authority impl : String) : R :=
+  if !(isAddr authority && isImplAddr impl) then .error (.reject "invalid message") else
+  if authority ≠ GOV then .error (.reject "invalid authority") else
+  if !s.params.erc20 then .error (.reject "erc20 disabled") else
+  if !s.params.beacon then .error (.reject "beacon not set") else
+  if s.fault = "call_err" then .error (.reject "evm call failed") else
+  if !(hasCode s impl) then .error (.reject "beacon: invalid implementation") else
+  .ok { s with impl := impl }
+
 /-- `Params.Validate` -/
 def paramsValid (p : Params) : Bool :=
   decide (0 ≤ p.taxRate.raw) && decide (p.taxRate.raw ≤ precision) &&
@@ -571,6 +704,21 @@ def step (s : State) : Op → R
   | .evmFault mode => stepEvmFault s mode
   | .updateParams authority p => stepUpdateParams s authority p
   | .evmTx target logs => stepEvmTx s target logs
+  | .legacyIssue owner symbol name minUnit scale init max mintable =>
+      stepLegacyIssue s owner symbol name minUnit scale init max mintable
+  | .legacyEdit owner symbol name max mintable => stepLegacyEdit s owner symbol name max mintable
+  | .legacyMint owner to symbol amount => stepLegacyMint s owner to symbol amount
+  | .legacyBurn sender symbol amount => stepLegacyBurn s sender symbol amount
+  | .legacyTransferOwner src dst symbol => stepLegacyTransferOwner s src dst symbol
+  | .upgradeErc20 authority impl => stepUpgradeErc20 s authority impl
+
+/-- the v1 operation a legacy operation is, when the adapter only copies fields -/
+def norm : Op → Op
+  | .legacyIssue owner symbol name minUnit scale init max mintable =>
+      .issue owner symbol name minUnit scale init max mintable
+  | .legacyEdit owner symbol name max mintable => .edit owner symbol name max mintable
+  | .legacyTransferOwner src dst symbol => .transferOwner src dst symbol
+  | op => op
 
 /-- the chain-level step: a rejected message leaves the state unchanged -/
 def apply (s : State) (op : Op) : State :=
